@@ -73,7 +73,7 @@ func init() {
 		return &Obs{Line: fmt.Sprintf("lt=%d gt=%d msgs=%d", o.lt, o.gt, o.msgs), Data: o, NoModel: true}
 	}
 	props["C19"] = &Prop{
-		Rule: "op sanitise <hex>: reportfeed.Sanitise against the model on ASCII texts dense in '<', '>', '&'; op status <client> <server> <stream>: the real ReportFeed.Status with a real queue filled by the real " +
+		Rule: "op sanitise <hex>: reportfeed.Sanitise against the model on ASCII texts dense in '<', '>', '&' and on long texts with 2^8, 2^15, 2^16, 2^17 (and one fewer, one more) markup characters; op status <client> <server> <stream>: the real ReportFeed.Status with a real queue filled by the real " +
 			"handler from a stream of valid frames, malformed CRC-valid frames and non-RTCM text, all carrying markup payloads, and client/server buffers carrying markup: the page must contain exactly as many " +
 			"'<' and '>' as the page of an idle proxy and none of the payloads verbatim; non-trivial = text with a markup character / at least one queued message; distinct = distinct op line",
 		Gen: func(c *Ctx, emit func(class, op string)) {
@@ -93,6 +93,17 @@ func init() {
 			}
 			for _, p := range markupPayloads {
 				emit("sanitise", "sanitise "+hx([]byte(p)))
+			}
+			// long texts: exactly, one fewer and one more than 2^8, 2^15, 2^16 and 2^17 markup
+			// characters (a count kept in too narrow a type comes round to zero there)
+			for _, n := range []int{255, 256, 257, 32767, 32768, 65535, 65536, 65537, 131072} {
+				b := []byte("<script>alert(1)</script>")
+				k := bytes.Count(b, []byte("<")) + bytes.Count(b, []byte(">"))
+				for ; k < n; k++ {
+					b = append(b, "<>"[r.Intn(2)])
+				}
+				b = append(b, " tail"...)
+				emit("sanitise-long", "sanitise "+hx(b))
 			}
 			for i := 0; i < c.N(60, 600); i++ {
 				var stream []byte
